@@ -65,6 +65,7 @@ type live struct {
 	FakeBID types.BlockID
 	Votes   []*types.Vote // real votes of the current height known to some node
 	AdvProposer bool // the attacker's validator is the proposer of (H,R)
+	Tmpl    int  // template variant of the well-formed messages: 0 prevote-flavoured, 1 precommit-flavoured
 	cache   map[string]Msg
 }
 
@@ -156,6 +157,10 @@ func bits(n int, set ...int) *cmn.BitArray {
 
 // valid returns a well-formed message of the given kind for peer height h / round r.
 func (l *live) valid(kind string, h uint64, r uint32) consensus.Message {
+	vt, isCommit := kproto.PrevoteType, false
+	if l.Tmpl == 1 {
+		vt, isCommit = kproto.PrecommitType, true
+	}
 	lcr := l.LCR
 	if h <= 1 {
 		lcr = 0
@@ -170,7 +175,7 @@ func (l *live) valid(kind string, h uint64, r uint32) consensus.Message {
 		if hd.Total == 0 {
 			hd = l.FakeBID.PartsHeader
 		}
-		return &consensus.NewValidBlockMessage{Height: h, Round: r, BlockPartsHeader: hd, BlockParts: bits(int(hd.Total), 0), IsCommit: false}
+		return &consensus.NewValidBlockMessage{Height: h, Round: r, BlockPartsHeader: hd, BlockParts: bits(int(hd.Total), 0), IsCommit: isCommit}
 	case "Proposal":
 		if l.Prop != nil && l.Prop.Height == h && l.Prop.Round == r {
 			return &consensus.ProposalMessage{Proposal: l.Prop}
@@ -181,13 +186,13 @@ func (l *live) valid(kind string, h uint64, r uint32) consensus.Message {
 	case "BlockPart":
 		return &consensus.BlockPartMessage{Height: h, Round: r, Part: l.part(0)}
 	case "Vote":
-		return &consensus.VoteMessage{Vote: l.advVote(h, r, kproto.PrevoteType, l.RealBID)}
+		return &consensus.VoteMessage{Vote: l.advVote(h, r, vt, l.RealBID)}
 	case "HasVote":
-		return &consensus.HasVoteMessage{Height: h, Round: r, Type: kproto.PrevoteType, Index: 1}
+		return &consensus.HasVoteMessage{Height: h, Round: r, Type: vt, Index: 1}
 	case "VoteSetMaj23":
-		return &consensus.VoteSetMaj23Message{Height: h, Round: r, Type: kproto.PrevoteType, BlockID: l.RealBID}
+		return &consensus.VoteSetMaj23Message{Height: h, Round: r, Type: vt, BlockID: l.RealBID}
 	case "VoteSetBits":
-		return &consensus.VoteSetBitsMessage{Height: h, Round: r, Type: kproto.PrevoteType, BlockID: l.RealBID, Votes: bits(l.NVals, 1)}
+		return &consensus.VoteSetBitsMessage{Height: h, Round: r, Type: vt, BlockID: l.RealBID, Votes: bits(l.NVals, 1)}
 	}
 	panic("unknown kind " + kind)
 }
@@ -245,7 +250,7 @@ func marshal(pb proto.Message) (out []byte) {
 }
 
 func (l *live) validMsg(kind string, h uint64, r uint32) (Msg, bool) {
-	key := fmt.Sprintf("%s/%d/%d", kind, h, r)
+	key := fmt.Sprintf("%s/%d/%d/%d", kind, h, r, l.Tmpl)
 	if m, ok := l.cache[key]; ok {
 		return m, true
 	}
